@@ -6,6 +6,8 @@ import (
 	"os"
 )
 
+var sweepPrefix string
+
 func main() {
 	if len(os.Args) < 2 {
 		fmt.Fprintln(os.Stderr, "usage: govc check <Cxx> <quick|thorough> | govc run [-fn name] | govc list")
@@ -19,7 +21,9 @@ func main() {
 		verbose := fs.Bool("v", false, "verbose")
 		keep := fs.String("keep", "", "keep SMT files in this dir")
 		timeout := fs.Int("t", 10, "solver timeout (s)")
+		sweep := fs.String("sweep", "", "zero-annotation safety sweep over all functions whose name has this prefix (e.g. cbor.)")
 		fs.Parse(os.Args[2:])
+		sweepPrefix = *sweep
 		os.Exit(cmdRun(*fn, *mod, *verbose, *keep, *timeout))
 	case "check":
 		if len(os.Args) < 4 {
